@@ -33,7 +33,8 @@ func c20run(overwrite bool) {
 			rt.Assert(false, "C20.setup")
 			return
 		}
-		crashed := rt.CrashDuringK(it, func() { fs.Store(newDoc, nil) })
+		noClobber := rt.NondetChoice("noclobber", 2) == 1
+		crashed := rt.CrashDuringK(it, func() { fs.Store(newDoc, &storage.StoreOptions{NoClobber: noClobber}) })
 		// a fresh process
 		fs2 := storage.NewFileSystem()
 		fs2.Options.Path = fs.Options.Path
@@ -46,7 +47,11 @@ func c20run(overwrite bool) {
 		if err == nil {
 			rt.Assert(rt.Or(isNew, isOld), "C20.oldnewerror")
 			if !crashed {
-				rt.Assert(isNew, "C20.completed")
+				if noClobber && overwrite {
+					rt.Assert(isOld, "C20.completed") // refused: the existing entry stays
+				} else {
+					rt.Assert(isNew, "C20.completed")
+				}
 			}
 		} else {
 			rt.Assert(crashed, "C20.completed")
@@ -58,3 +63,34 @@ func c20run(overwrite bool) {
 
 func H_C20_FirstStore() { c20run(false) }
 func H_C20_Overwrite()  { c20run(true) }
+
+// H_C20_StoreAfterCrash: what an interrupted store leaves behind (temporary files, a torn entry) must not leak into a
+// later, completed store of the same identifier: the retrieve after it returns exactly that document.
+func H_C20_StoreAfterCrash() {
+	id := rt.NondetString("id")
+	rt.Assume(id != "")
+	for it := 0; it < rt.CrashIterations(); it++ {
+		fs := storage.NewFileSystem()
+		fs.Options.Path = rt.FSDirN(it)
+		mk := func(ver, name string, nodes int) *sbom.Document {
+			d := &sbom.Document{Metadata: &sbom.Metadata{Id: id, Version: ver, Name: name}, NodeList: &sbom.NodeList{RootElements: []string{"n0"}}}
+			for i := 0; i < nodes; i++ {
+				d.NodeList.Nodes = append(d.NodeList.Nodes, &sbom.Node{Id: "n" + string(rune('0'+i)), Name: name})
+			}
+			return d
+		}
+		first, big, small := mk("1", "first", 1), mk("2", "interrupted-with-a-long-name", 3), mk("3", "s", 1)
+		if fs.Store(first, nil) != nil {
+			rt.Assert(false, "C20.setup")
+			return
+		}
+		rt.CrashDuringK(it, func() { fs.Store(big, nil) })
+		fs2 := storage.NewFileSystem()
+		fs2.Options.Path = fs.Options.Path
+		if err := fs2.Store(small, nil); err != nil {
+			continue // refusing is acceptable; returning something else afterwards is not
+		}
+		got, err := fs2.Retrieve(id, nil)
+		rt.Assert(err == nil && docSame(got, small), "C20.storeaftercrash")
+	}
+}
